@@ -302,19 +302,23 @@ def audit(prop_modules, workdir):
     return per, problems
 
 
-def driver_path():
-    return os.path.join(LEAN, '.lake', 'build', 'bin', 'pysph_model')
+def driver_target(model):
+    return 'model_' + model.lower()
+
+
+def driver_path(model):
+    return os.path.join(LEAN, '.lake', 'build', 'bin', driver_target(model))
 
 
 def run_driver(model, lines, timeout=1800):
     """Feed lines to the Lean model driver, return list of output lines."""
-    exe = driver_path()
+    exe = driver_path(model)
     if not os.path.exists(exe):
-        ok, out, _ = lake_build(['pysph_model'])
+        ok, out, _ = lake_build([driver_target(model)])
         if not ok:
             raise MachineryError('cannot build model driver:\n' + out[-2000:])
     data = '\n'.join(lines) + '\n'
-    p = subprocess.run([exe, model], input=data, stdout=subprocess.PIPE,
+    p = subprocess.run([exe], input=data, stdout=subprocess.PIPE,
                        stderr=subprocess.PIPE, text=True, timeout=timeout)
     if p.returncode != 0:
         raise MachineryError('model driver failed: ' + p.stderr[-2000:])
